@@ -7,8 +7,14 @@ P=$1; F=$2; OLD=$3; NEW=$4
 W=$(mktemp -d /tmp/renrun.XXXXXX)
 rsync -a --exclude .git /repo/ "$W/repo/"
 mkdir -p "$W/verif"; cp -r /verif/spec /verif/props "$W/verif/"; [ -f /verif/known_findings.json ] && cp /verif/known_findings.json "$W/verif/"
-sed -i "s/\b$OLD\b/$NEW/g" "$W/repo/$F"
-(cd "$W/repo" && GOFLAGS=-mod=mod GOPROXY=off go build ./... 2>&1 | head -5 && GOFLAGS=-mod=mod GOPROXY=off go test -vet=off -count=1 ./$(dirname $F)/ 2>&1 | tail -1)
+if [ "$F" = ALL ]; then
+  # every file of the repository except the contract files (a function or method renamed with all its callers)
+  (cd "$W/repo" && grep -rlw "$OLD" --include=*.go . | grep -v "/verif_" | xargs sed -i "s/\b$OLD\b/$NEW/g")
+  (cd "$W/repo" && GOFLAGS=-mod=mod GOPROXY=off go build ./... 2>&1 | head -5 && GOFLAGS=-mod=mod GOPROXY=off go test -vet=off -count=1 ./... 2>&1 | grep -v "^ok\|no test files" | head -5)
+else
+  sed -i "s/\b$OLD\b/$NEW/g" "$W/repo/$F"
+  (cd "$W/repo" && GOFLAGS=-mod=mod GOPROXY=off go build ./... 2>&1 | head -5 && GOFLAGS=-mod=mod GOPROXY=off go test -vet=off -count=1 ./$(dirname $F)/ 2>&1 | tail -1)
+fi
 out=$(cd /verif && ${GOVC:-./bin/govc} check -prop $P -repo "$W/repo" -verif "$W/verif" 2>&1); r=$?
 echo "[$P rc=$r]"; echo "$out" | grep -E 'VIOLATION|UNDECIDED|KNOWN' | head -6 | sed "s|$W||g"; echo "$out" | tail -1
 rm -rf "$W"; exit $r
